@@ -11,8 +11,8 @@
   looks at is kept: the header batch count, and per item the operation, status, reason, message, and the
   dynamic Go type of the payload (`Payload`), plus — for DiscoverVersions — the version list it carries.
 
-  Go panics are explicit: `resp[0]` of `Request` is a `.panic` branch on the empty list (shown unreachable
-  in Props/C12).
+  Go panics are explicit: `resp[0]` of `Request` and `payloads[i]` of `BatchOpt` are `.panic` branches on the
+  empty list (shown unreachable in Props/C12).
 -/
 namespace Kmip.Resp
 
@@ -72,6 +72,14 @@ def enumStr (tbl : List (Nat × Nat)) (v : Nat) : EStr :=
   | some n => .name n
   | none => .hex v
 
+/-- One line of the error `BatchOpt` returns when it refuses a response (`errors.Join`). -/
+inductive ItemErr where
+  | item (op status reason : EStr) (msg : Msg)       -- `ResponseBatchItem.Err()` of a failed item
+  | missingAt (i : Nat)                              -- "Missing response payload in batch item %d"
+  | wrongOperationAt (got want : EStr) (i : Nat)     -- "Unexpected response payload for operation %q in
+                                                     --  batch item %d, expected %q"
+  deriving DecidableEq, Repr, Inhabited
+
 /-- The `error` values the client returns. -/
 inductive Err where
   | transport                                        -- error of `Roundtrip`
@@ -85,6 +93,7 @@ inductive Err where
   | negoCount                                        -- "Unexpected batch item count"
   | negoNoCommon                                     -- "… No common version found"
   | negoPayload                                      -- "… Unexpected response payload"
+  | joined (lines : List ItemErr)                    -- `errors.Join(errs...)` of a refused batch response
   deriving DecidableEq, Repr, Inhabited
 
 /-- Result of a client call: a value, a Go `error`, or a Go panic. -/
@@ -106,30 +115,68 @@ def Item.err (t : Tables) (bi : Item) : Option Err :=
     some (.item (enumStr t.ops bi.op) (enumStr t.status bi.status) (enumStr t.reasons bi.reason) bi.msg)
   else none
 
-/-- `Client.BatchOpt` (= `Batch`, `BatchExec.ExecContext`) after the request was built for `nreq` payloads. -/
-def batchOpt (nreq : Nat) : RoundTrip → Res (List Item)
+/-- The loop of `BatchOpt` over `resp.BatchItem[i:]`, with `ops = payloads[i:]` (operations requested at
+    the same positions): the lines for `errors.Join` and the `violation` flag. A failed item contributes
+    its `Err()`; a successful item must carry a payload whose `Operation()` is the requested one.
+    `none` = index out of range at `payloads[i]`. -/
+def checkItems (t : Tables) : Nat → List Nat → List Item → Option (List ItemErr × Bool)
+  | _, _, [] => some ([], false)
+  | i, ops, bi :: rest =>
+    if bi.status ≠ statusSuccess then
+      match checkItems t (i + 1) ops.tail rest with
+      | none => none
+      | some r =>
+        some (.item (enumStr t.ops bi.op) (enumStr t.status bi.status) (enumStr t.reasons bi.reason) bi.msg :: r.1, r.2)
+    else
+      match bi.payload with
+      | none =>
+        match checkItems t (i + 1) ops.tail rest with
+        | none => none
+        | some r => some (.missingAt i :: r.1, true)
+      | some p =>
+        match ops with
+        | [] => none                                    -- `payloads[i]`: index out of range
+        | o :: ops' =>
+          match checkItems t (i + 1) ops' rest with
+          | none => none
+          | some r =>
+            if p.operation ≠ o then
+              some (.wrongOperationAt (enumStr t.ops p.operation) (enumStr t.ops o) i :: r.1, true)
+            else some r
+
+/-- `Client.BatchOpt` (= `Batch`, `BatchExec.ExecContext`) for the requested operations `reqOps`, once the
+    round trip returned: count check, then the per-item check; a violation refuses the whole response. -/
+def batchOpt (t : Tables) (reqOps : List Nat) : RoundTrip → Res (List Item)
   | .fail => .err .transport
   | .msg h items =>
-    if h ≠ (items.length : Int) ∨ items.length ≠ nreq then .err .countMismatch
-    else .ok items
+    if h ≠ (items.length : Int) ∨ items.length ≠ reqOps.length then .err .countMismatch
+    else
+      match checkItems t 0 reqOps items with
+      | none => .panic
+      | some r => if r.2 then .err (.joined r.1) else .ok items
+
+/-- `Client.Request` from `bi := resp[0]` on. (Since 3ff9e72 `BatchOpt` already refuses a successful item
+    without the requested operation's payload, so the last two checks are now redundant; they are still in
+    the code and in the model.) -/
+def requestItem (t : Tables) (reqOp : Nat) (bi : Item) : Res Payload :=
+  match bi.err t with
+  | some e => .err e
+  | none =>
+    match bi.payload with
+    | none => .err .missingPayload
+    | some p =>
+      if p.operation ≠ reqOp then .err (.wrongOperation (enumStr t.ops p.operation) (enumStr t.ops reqOp))
+      else .ok p
 
 /-- `Client.Request(ctx, payload)` with `payload.Operation() = reqOp`. -/
 def request (t : Tables) (reqOp : Nat) (rt : RoundTrip) : Res Payload :=
-  match batchOpt 1 rt with
+  match batchOpt t [reqOp] rt with
   | .err e => .err e
   | .panic => .panic
   | .ok items =>
     match items with
     | [] => .panic                                    -- `resp[0]`: index out of range
-    | bi :: _ =>
-      match bi.err t with
-      | some e => .err e
-      | none =>
-        match bi.payload with
-        | none => .err .missingPayload
-        | some p =>
-          if p.operation ≠ reqOp then .err (.wrongOperation (enumStr t.ops p.operation) (enumStr t.ops reqOp))
-          else .ok p
+    | bi :: _ => requestItem t reqOp bi
 
 /-- `Executor[Req, Resp].ExecContext` where `Resp` is the response type registered for `reqOp`;
     `buildOk = false` models a builder carrying an initialisation error (no request is sent).
@@ -152,7 +199,7 @@ def unwrap (t : Tables) : List Item → List (Option Payload) × List Err
 
 /-- `client.Batch(ctx, payloads...)` (or a `.Then(...)` chain `.Exec()`) followed by `.Unwrap()`. -/
 def batchUnwrap (t : Tables) (reqOps : List Nat) (rt : RoundTrip) : Res (List (Option Payload) × List Err) :=
-  match batchOpt reqOps.length rt with
+  match batchOpt t reqOps rt with
   | .ok items => .ok (unwrap t items)
   | .err e => .err e
   | .panic => .panic
